@@ -75,6 +75,17 @@ Theorem C12_refuted_blocking_release :
 Proof. exact refuted_blocking_release. Qed.
 Print Assumptions C12_refuted_blocking_release.
 
+(* ... and handing the permit back must be ONE atomic non-blocking operation: with the check-then-act form
+   `if len(ch) == cap(ch) { return }; ch <- x` two goroutines that finish together (max = 1, channel empty) both see
+   room, the first send fills the channel, the second blocks - and stays blocked under EVERY continuation, since nothing
+   takes a permit any more (schedule: check 0, check 1, send 0). *)
+Theorem C12_refuted_check_then_act :
+  exists c, crun 1 (mkCC 0 [RIdle; RIdle]) cta_sched = Some c /\
+            nth_error (rel c) 1 = Some RChecked /\ ctok c = 1 /\
+            forall ls c', crun 1 c ls = Some c' -> nth_error (rel c') 1 = Some RChecked /\ ctok c' = 1.
+Proof. exact refuted_check_then_act. Qed.
+Print Assumptions C12_refuted_check_then_act.
+
 (* non-vacuity: prog_disj is a program; under max = 1 with the repaired release the deadlock schedule continues to a
    finished search with the same two answers, in 10 + 3 <= work * 2 = 22 steps; its erasure is the unlimited run *)
 Example C12_nonvacuous :
